@@ -98,7 +98,7 @@ void ep2_blind(ep2_t r, const ep2_t p) {
 		fp2_mul(r->z, p->z, rand);
 		fp2_mul(r->y, p->y, rand);
 		fp2_sqr(rand, rand);
-		fp2_mul(r->x, r->x, rand);
+		fp2_mul(r->x, p->x, rand);
 		fp2_mul(r->y, r->y, rand);
 		r->coord = JACOB;
 #endif
